@@ -10,6 +10,7 @@
 package p
 
 import (
+	"runtime"
 	"bufio"
 	"context"
 	"crypto/sha256"
@@ -665,6 +666,10 @@ func TestWorker(t *testing.T) {
 	if mode == "" {
 		t.Skip("engine P is driven by the orchestrator")
 	}
+	// one processor: inside a bubble the goroutines of the system under test then run one at a
+	// time and switch only where they block or yield, whatever GOMAXPROCS the environment sets
+	// (with several processors the production loop and its signal goroutines race for real)
+	runtime.GOMAXPROCS(1)
 	out := bufio.NewWriterSize(os.Stdout, 1<<20)
 	defer out.Flush()
 	enc := json.NewEncoder(out)
